@@ -209,7 +209,7 @@ def vt_bindings(scr, moddir):
     if p.returncode != 0:
         raise Broken("the v2 generator failed on the VT manifest:\n" + p.stdout[-3000:])
     with open(os.path.join(moddir, "registry.go"), "w") as f:
-        subprocess.run([sys.executable, os.path.join(VERIF, "schemas", "vt.py"), "registry", "verifharness/gen"], stdout=f, check=True)
+        subprocess.run([sys.executable, os.path.join(VERIF, "schemas", "vt.py"), "registry", "verifharness/gen", os.path.join(moddir, "gen", "vt")], stdout=f, check=True)
     if os.path.exists(os.path.join(moddir, "USE_RESOURCES")):
         with open(os.path.join(moddir, "resources.go"), "w") as f:
             subprocess.run([sys.executable, os.path.join(VERIF, "schemas", "vt.py"), "resources", "verifharness/gen"], stdout=f, check=True)
@@ -218,6 +218,34 @@ def vt_bindings(scr, moddir):
     # the generated all_imports_test.gr.go is a `package main` file in the output root; it is not part of the bindings
     os.chmod(os.path.join(moddir, "gen", "all_imports_test.gr.go"), 0o644)
     os.remove(os.path.join(moddir, "gen", "all_imports_test.gr.go"))
+
+
+def vt_bindings_root(scr, moddir):
+    """The VT data types generated with /repo's CURRENT root-module generator (includes flattened the way its schema
+    parser hands them over; no resources: the root generation's resource bindings are exercised by C12)."""
+    sys.path.insert(0, os.path.join(VERIF, "schemas"))
+    import grammar
+    gen = go_module(scr, "genroot", "root")
+    p = subprocess.run([sys.executable, os.path.join(VERIF, "schemas", "vt.py"), "manifest", "verifharness/gen"], stdout=subprocess.PIPE, check=True)
+    m = json.loads(p.stdout)
+    mf = os.path.join(scr.path, "vt-root-spec.json")
+    json.dump({"dataTypes": grammar.flatten_includes(m["inputDataTypes"]), "Resources": []}, open(mf, "w"))
+    out = os.path.join(moddir, "gen")
+    os.makedirs(out, exist_ok=True)
+    p = subprocess.run([gen, mf, out, "verifharness/gen"], stdout=subprocess.PIPE, stderr=subprocess.STDOUT, text=True)
+    if p.returncode != 0:
+        raise Broken("the root generator failed on the VT data types:\n" + p.stdout[-3000:])
+    with open(os.path.join(moddir, "registry.go"), "w") as f:
+        subprocess.run([sys.executable, os.path.join(VERIF, "schemas", "vt.py"), "registry", "verifharness/gen", os.path.join(out, "vt")], stdout=f, check=True)
+    if os.path.exists(os.path.join(moddir, "USE_RESOURCES")):
+        os.remove(os.path.join(moddir, "USE_RESOURCES"))
+    with open(os.path.join(moddir, "enums.json"), "w") as f:
+        subprocess.run([sys.executable, os.path.join(VERIF, "schemas", "vt.py"), "enums"], stdout=f, check=True)
+    for r, ds, fs in os.walk(out):
+        for f in fs:
+            if f.startswith("all_imports"):
+                os.chmod(os.path.join(r, f), 0o644)
+                os.remove(os.path.join(r, f))
 
 
 def run_bin(binary, args, timeout=1800, stdin=None, env=None, cwd=None):
